@@ -29,7 +29,10 @@ MANIFEST = {
             '(views of two nonzero secrets overlap in 110 of 1210 tapes) and rerandomised_product_uniform justify the obligation; '
             'failing sites are replayed (m=3, t=1: party 0 reconstructs and factors the product polynomial). Threshold changed by the '
             'program before start() (m=5, 1->2 and 2->1): every PRSS share / zero sharing logged at all parties must have exactly the degree of '
-            'the threshold in force, and the coalition {0,1} must not recover the is_zero_public secret from its own shares of r.',
+            'the threshold in force, and the coalition {0,1} must not recover the is_zero_public secret from its own shares of r. Shares '
+            'received: thresha.random_split / np_random_split (the dealing behind input() and _reshare(), call sites read from the source) '
+            'on GF(5,7,11,13) m=3 t=1 and GF(7) m=5 t=2 with the randomness oracle enumerated exhaustively: the exact view distribution of '
+            'every coalition of <= t parties must be uniform and identical for all secrets.',
     'note': 'Per-opening bounds are proved; composition across a whole adaptive program is the union bound over openings, stated not '
             'mechanised. PRF (SHAKE-128) outputs and `secrets` draws being uniform and independent are oracle assumptions; that a '
             'coalition of <= t parties misses one PRSS key / one of the t+1 dealers is taken from C16, not re-proved. Row obligations '
@@ -41,7 +44,7 @@ MANIFEST = {
             'row ignores (conservative: it fails with and without that factor). F-C18-1 (np pow precedence) is fixed in /repo; open findings: _mod and sincos masks (F-C18-2/3) and six functions that '
             'open an un-rerandomised product with threshold 2t for medium/large fields (F-C18-5..10). to_bits on binary fields: rows '
             'assume the precondition a < 2^l (nothing above bit l is secret). The product-opening theorems are toy-size exhaustive '
-            'counts (p=11, m=3, t=1), not a general proof; the per-site rerandomisation obligation is a syntactic data-flow rule. Shares received by the coalition (C13/C15) are outside this check. NumPy sites are run only when .venv-np exists.',
+            'counts (p=11, m=3, t=1), not a general proof; the per-site rerandomisation obligation is a syntactic data-flow rule. Shares received by the coalition are checked exactly only for the dealing function on small prime fields (see C13/C15 for the general statements). NumPy sites are run only when .venv-np exists.',
     'technique': 'Coq counting proof of statistical distance + source-regenerated mask table with per-row compiled obligations + simulator correspondence of mask bounds',
 }
 
@@ -787,6 +790,127 @@ def analyse_tchange(out, m, t):
     return res
 
 
+# ------------------------------------------------------------------------------------------------
+# shares received by the coalition: exact view distributions of the dealing function used by input() and _reshare()
+
+def worker_exact(cfg):
+    """thresha.random_split / np_random_split on small prime fields with `thresha.secrets` replaced by an oracle that
+    enumerates EVERY answer sequence (whatever secrets function is called) with exact probabilities (technique of
+    props/c13.py): for all secrets the exact distribution of the shares of every coalition of <= t parties must be
+    uniform and identical."""
+    import itertools
+    from fractions import Fraction
+    argv, sys.argv = sys.argv, ['c18-exact', '--no-log']      # importing mpyc parses the command line
+    try:
+        from mpyc import thresha, finfields
+    finally:
+        sys.argv = argv
+    import secrets as _secrets
+
+    class NeedMore(Exception):
+        pass
+
+    class Oracle:
+        def __init__(self, prefix):
+            self.prefix, self.pos, self.prob = prefix, 0, Fraction(1)
+
+        def _next(self, n_outcomes):
+            if self.pos >= len(self.prefix):
+                e = NeedMore()
+                e.n = n_outcomes
+                raise e
+            v = self.prefix[self.pos]
+            self.pos += 1
+            self.prob /= n_outcomes
+            return v
+
+        def randbelow(self, n):
+            return self._next(n)
+
+        def randbits(self, k):
+            return self._next(1 << k)
+
+        def choice(self, seq):
+            return seq[self._next(len(seq))]
+
+        def token_bytes(self, n=32):
+            return self._next(256 ** n).to_bytes(n, 'little')
+
+    def all_runs(fn):
+        stack = [()]
+        while stack:
+            prefix = stack.pop()
+            orc = Oracle(prefix)
+            thresha.secrets = orc
+            try:
+                r = fn()
+            except NeedMore as e:
+                if e.n > 4096:
+                    raise RuntimeError('oracle outcome space too large: %d' % e.n)
+                stack.extend(prefix + (v,) for v in range(e.n))
+                continue
+            yield r, orc.prob
+
+    try:
+        import numpy as np
+    except ImportError:
+        np = None
+    variants = [('random_split', lambda F, s, t, m: thresha.random_split(F, [F(s)], t, m))]
+    if np is not None:
+        variants.append(('np_random_split', lambda F, s, t, m: [list(r) for r in thresha.np_random_split(F, F.array([s], check=False), t, m)]))
+    out = {'cases': [], 'violations': [], 'enumerated': 0, 'numpy': np is not None}
+    try:
+        for variant, split in variants:
+            for q, m, t in cfg['configs']:
+                F = finfields.GF(q)
+                coalitions = [C for r in range(1, t + 1) for C in itertools.combinations(range(m), r)]
+                ref, ref_s = None, None
+                for s in range(q):
+                    hist = {C: {} for C in coalitions}
+                    total = Fraction(0)
+                    for sh, prob in all_runs(lambda: split(F, s, t, m)):
+                        vals = [int(F(v[0]).value if not hasattr(v[0], 'value') else v[0].value) % q for v in sh]
+                        for C in coalitions:
+                            key = tuple(vals[i] for i in C)
+                            hist[C][key] = hist[C].get(key, 0) + prob
+                        total += prob
+                        out['enumerated'] += 1
+                    for C in coalitions:
+                        want = Fraction(1, q ** len(C))
+                        if total != 1 or len(hist[C]) != q ** len(C) or set(hist[C].values()) != {want}:
+                            worst = sorted(hist[C].items(), key=lambda kv: kv[1])
+                            out['violations'].append({'what': 'not-uniform', 'fn': variant, 'q': q, 'm': m, 't': t, 'secret': s, 'coalition': list(C),
+                                                      'distinct_views': len(hist[C]), 'expected_views': q ** len(C),
+                                                      'least_likely': [list(worst[0][0]), str(worst[0][1])],
+                                                      'most_likely': [list(worst[-1][0]), str(worst[-1][1])]})
+                    if ref is None:
+                        ref, ref_s = hist, s
+                    elif hist != ref:
+                        C = next(C for C in coalitions if hist[C] != ref[C])
+                        v = next(k for k in set(hist[C]) | set(ref[C]) if hist[C].get(k, 0) != ref[C].get(k, 0))
+                        out['violations'].append({'what': 'depends-on-secret', 'fn': variant, 'q': q, 'm': m, 't': t, 'secrets': [ref_s, s],
+                                                  'coalition': list(C), 'view': list(v),
+                                                  'probabilities': [str(ref[C].get(v, 0)), str(hist[C].get(v, 0))]})
+                    out['cases'].append({'fn': variant, 'q': q, 'm': m, 't': t, 'secret': s})
+    finally:
+        thresha.secrets = _secrets
+    return out
+
+
+def dealing_call_sites(repo):
+    """Functions of runtime.py that deal shares, and the dealing function they use (from the source)."""
+    import ast
+    tree = ast.parse(open(os.path.join(repo, 'mpyc', 'runtime.py')).read())
+    res = {}
+    for fn in ast.walk(tree):
+        if isinstance(fn, (ast.FunctionDef, ast.AsyncFunctionDef)):
+            for n in ast.walk(fn):
+                if isinstance(n, ast.Attribute) and n.attr in ('random_split', 'np_random_split') and \
+                        isinstance(n.value, ast.Name) and n.value.id == 'thresha':
+                    res.setdefault(fn.name, set()).add(n.attr)
+    return {k: sorted(v) for k, v in res.items()}
+
+
 def spawn(cfg, python, timeout=600):
     env = dict(os.environ)
     repo = os.environ.get('MPYC_REPO', '/repo')
@@ -947,10 +1071,39 @@ def run(ctx):
     t0 = time.time()
     tcfgs = [dict(mode='tchange', m=5, t0=1, t=2, reps=ctx.n(6, 15), seed=ctx.seed),
              dict(mode='tchange', m=5, t0=2, t=1, reps=ctx.n(3, 8), seed=ctx.seed + 1)]
+    xcfg = dict(mode='exact', configs=[(5, 3, 1), (7, 3, 1), (11, 3, 1), (13, 3, 1), (7, 5, 2)] +
+                ([(11, 5, 2), (13, 4, 1), (17, 3, 1)] if ctx.tier == 'thorough' else []))
     with ThreadPoolExecutor(max_workers=8) as ex:
         fut_t = [ex.submit(spawn, c, python) for c in tcfgs]
+        fut_x = ex.submit(spawn, xcfg, python)
         outs = list(ex.map(lambda c: spawn(c, python), configs))
         touts = [f.result() for f in fut_t]
+        xout = fut_x.result()
+    # shares received: exact view distributions of the dealing function behind input() and _reshare()
+    dealers_src = dealing_call_sites(REPO)
+    ctx.extra['dealing_call_sites'] = dealers_src
+    if set(dealers_src) != {'_distribute', '_reshare'} and set(dealers_src) != {'input', '_reshare'}:
+        ctx.notes.append('functions dealing shares through thresha.(np_)random_split: %s' % dealers_src)
+    if not dealers_src or any(set(v) - {'random_split', 'np_random_split'} for v in dealers_src.values()):
+        ctx.broken.append({'kind': 'dealing', 'detail': 'no call of thresha.random_split found in runtime.py: %s' % dealers_src})
+    if 'error' in xout:
+        ctx.broken.append({'kind': 'exact-view', 'detail': xout['error']})
+    else:
+        for c in xout['cases']:
+            ctx.case({'exact_view': c}, nontrivial=True, kind='exact view %s' % c['fn'])
+        ctx.extra['exact_view'] = {'cases': len(xout['cases']), 'oracle_sequences_enumerated': xout['enumerated'], 'numpy': xout['numpy'],
+                                   'violations': len(xout['violations'])}
+        ctx.log('exact view of dealt shares (%s, used by %s): %d (function, field, m, t, secret) cases, %d oracle answer sequences, %d deviations' % (
+            'random_split' + ('/np_random_split' if xout['numpy'] else ''), sorted(dealers_src), len(xout['cases']), xout['enumerated'],
+            len(xout['violations'])))
+        seen_sig = set()
+        for v in xout['violations']:
+            sig = 'dealt-share-view-%s fn=%s GF(%d) m=%d t=%d' % (v['what'], v['fn'], v['q'], v['m'], v['t'])
+            if sig not in seen_sig:
+                seen_sig.add(sig)
+                ctx.violation(sig, {**v, 'used_by': dealers_src,
+                                    'why': 'the shares a coalition of <= t parties receives must be uniform and independent of the secret '
+                                           '(exact probabilities over all answers of the randomness oracle)'}, found_input=True)
     # threshold changed before start(): masks must follow the threshold in force
     for tc, to in zip(tcfgs, touts):
         tag = {'m': tc['m'], 'threshold_at_startup': tc['t0'], 'threshold_in_force': tc['t'], 'prss': True}
@@ -1184,5 +1337,5 @@ def search(sc, python, ctx, reps=30):
 if __name__ == '__main__':
     if '--worker' in sys.argv:
         cfg = json.loads(sys.stdin.read())
-        r = {'product': worker_product, 'tchange': worker_tchange}.get(cfg.get('mode'), worker)(cfg)
+        r = {'product': worker_product, 'tchange': worker_tchange, 'exact': worker_exact}.get(cfg.get('mode'), worker)(cfg)
         print('RESULT ' + json.dumps(r, default=str))
